@@ -18,9 +18,22 @@
 (*                              while the program still holds it under a   *)
 (*                              name: its bytes AND ITS LENGTH are those   *)
 (*                              of cv[name] at the time of each read       *)
-(* The code stores a ByteVec as a chunk in exactly one place: the aligned  *)
-(* branch of set_slice (bytevec.py:584-586).  Everywhere else a ByteVec    *)
-(* argument is unpacked into its (immutable) chunks.                       *)
+(* Since halmos commit 1a97aee the code never stores a ByteVec as a chunk:  *)
+(* a ByteVec argument is always unpacked into its (immutable) chunks - by   *)
+(* append(), by the back-fill branch and by the general branch of          *)
+(* set_slice; the aligned fast path of set_slice (bytevec.py:582-591) is    *)
+(* only taken for a Chunk value.  "N" and "R" chunks therefore only exist   *)
+(* as VALUES of arguments, never inside a chunk map, and the refinement     *)
+(* holds for the whole alphabet, whole-vector arguments included.           *)
+(*                                                                         *)
+(* What must not come back is kept as the model mutant "alignedref" (the   *)
+(* code before 1a97aee, finding bytevec-aligned-nested-alias): the aligned  *)
+(* branch stores a ByteVec value as it is.  Then a write to the source      *)
+(* shows through the destination, a length change of the source leaves the  *)
+(* destination ill-formed, and two vectors can even come to contain each    *)
+(* other (from there on the mutant model is only an approximation: the      *)
+(* append() of such a vector never returns in the code, the model's does).  *)
+(* TLC must refute it (MC_ChunkVec_m_alignedref.cfg).                       *)
 (*                                                                         *)
 (* The module runs the chunk heap cv in lock step with the flat heap of    *)
 (* ByteSeq on the same commands; Refinement is Flatten(cv) = heap.         *)
@@ -28,12 +41,16 @@
 EXTENDS ByteSeq, FiniteSets, TLC, Json
 
 CONSTANTS Depth,       \* histories of at most Depth commands
-          Mode,        \* "all": every command; "noalias": a whole-vector argument ("vec") is not
-                       \* passed to a set_slice that is aligned on one existing chunk
           Emit,        \* "none" | "all" (one JSON record per transition) | "leaf" (at level Depth)
           Pick,        \* "all": every enabled command is a successor; "random": one command chosen by
                        \* TLC's RandomElement per step (cheap long histories under -simulate)
-          Prof(_)      \* level |-> command profile (see ByteSeq!Cmds)
+          Prof(_),     \* level |-> command profile (see ByteSeq!Cmds)
+          Mutant       \* "none", or a deliberately wrong variant of the chunk model that the invariants
+                       \* must reject (negative controls of the invariants themselves):
+                       \* "post" (post-chunk truncation off by one), "slicefill" (slice() pads one zero
+                       \* too few), "copyalias" (copy() returns a reference to the original),
+                       \* "alignedref" (aligned set_slice stores a ByteVec value by reference: the
+                       \* behaviour of the code before 1a97aee)
 
 VARIABLES cv,      \* the chunk heap: name -> vector
           hist,    \* history of commands with the flat value of the written vector (not in VIEW)
@@ -101,7 +118,8 @@ VSlice(H, x, start, stop) ==
          IF fi = 0 THEN VAppend(H, EmptyVec, CC(Zeros(stop - start)))
          ELSE LET r == SliceLoop(H, x, start, stop, fi, EmptyVec)
                   missing == (stop - start) - r.len
-              IN IF missing > 0 THEN VAppend(H, r, CC(Zeros(missing))) ELSE r
+                  fill == IF Mutant = "slicefill" THEN missing - 1 ELSE missing
+              IN IF fill > 0 THEN VAppend(H, r, CC(Zeros(fill))) ELSE r
 
 \* set_byte(off, value), bc = Chunk.wrap(value)
 VSetByte(H, x, off, bc) ==
@@ -133,8 +151,8 @@ VSetSlice(H, x, start, stop, val) ==
     IF start = stop THEN x
     ELSE IF start >= x.len
     THEN VAppend(H, VAppend(H, x, CC(Zeros(start - x.len))), val)        \* back-fill
-    ELSE IF IsAligned(H, x, start, stop)
-    THEN [x EXCEPT !.cs = SetChunk(H, x.cs, start, val)]                  \* aligned: stored AS IS
+    ELSE IF IsAligned(H, x, start, stop) /\ (Flat(val) \/ Mutant = "alignedref")
+    THEN [x EXCEPT !.cs = SetChunk(H, x.cs, start, val)]                  \* aligned Chunk: stored as is
     ELSE LET fi    == LoadIdx(x, start)
              fe    == x.cs[fi]
              li    == LoadIdx(x, stop - 1)                                \* 0: stop > len
@@ -151,7 +169,9 @@ VSetSlice(H, x, start, stop, val) ==
                       THEN LET le   == x.cs[li]
                                lend == le.off + CLen(H, le.c)
                            IN IF stop < lend
-                              THEN SetChunk(H, cs3, stop, ChunkSlice(H, le.c, stop - le.off, CLen(H, le.c)))
+                              THEN SetChunk(H, cs3, stop,
+                                            ChunkSlice(H, le.c, stop - le.off + (IF Mutant = "post" THEN 1 ELSE 0),
+                                                       CLen(H, le.c)))
                               ELSE cs3
                       ELSE cs3
          IN [len |-> Max(x.len, stop), cs |-> cs4]
@@ -215,14 +235,17 @@ CApply(H, c) ==
                                   r == VSlice(F, F[c.src], c.a, c.b)  \* rebound; F and H read the same)
                               IN [F EXCEPT ![c.v] = r]
       [] c.op = "Copy"     -> LET F == Freeze(H, c.v)
-                                  r == VCopy(F[c.src])
+                                  r == IF Mutant = "copyalias" /\ c.src # c.v /\ F[c.src].len > 0
+                                       THEN [len |-> F[c.src].len, cs |-> <<[off |-> 0, c |-> RC(c.src)]>>]
+                                       ELSE VCopy(F[c.src])
                               IN [F EXCEPT ![c.v] = r]
 
-\* the case DESIGN section 7 names bytevec-aligned-nested-alias
+\* the case of the former finding bytevec-aligned-nested-alias (DESIGN section 7): a whole live vector
+\* written exactly over one existing chunk.  It is part of the alphabet; histories are tagged with it so
+\* that a disagreement after such a step is reported under that key
 AliasCase(c) == /\ c.op = "SetSlice"
                 /\ c.data.k = "vec"
                 /\ IsAligned(cv, cv[c.v], c.off, c.off + cv[c.data.w].len)
-Enabled(c) == Mode = "all" \/ ~AliasCase(c)
 
 \* which branch of the code a command takes (coverage bookkeeping only; see checks/c07.py)
 Branch(H, c) ==
@@ -234,7 +257,8 @@ Branch(H, c) ==
                 stop  == c.off + n
             IN IF n = 0 THEN "noop"
                ELSE IF start >= x.len THEN (IF start > x.len THEN "backfill-gap" ELSE "backfill")
-               ELSE IF IsAligned(H, x, start, stop) THEN "aligned"
+               ELSE IF IsAligned(H, x, start, stop) /\ (Flat(ValOf(H, c.data)) \/ Mutant = "alignedref")
+                    THEN "aligned"
                ELSE LET fi   == LoadIdx(x, start)
                         fe   == x.cs[fi]
                         li   == LoadIdx(x, stop - 1)
@@ -242,7 +266,7 @@ Branch(H, c) ==
                         lend == IF li = 0 THEN 0 ELSE x.cs[li].off + CLen(H, x.cs[li].c)
                     IN "general" \o flag(start > fe.off, "+pre") \o flag(li # 0 /\ stop < lend, "+post")
                        \o flag(stop > x.len, "+extend") \o flag(rto >= fi + 1, "+remove")
-                       \o flag(li = fi, "+same")
+                       \o flag(li = fi, "+same") \o flag(IsAligned(H, x, start, stop), "+wholechunk")
        ELSE IF c.op = "SetByte" THEN
             LET x == H[c.v] IN
             IF c.off >= x.len THEN (IF c.off > x.len THEN "byte-backfill-gap" ELSE "byte-backfill")
@@ -264,13 +288,13 @@ Level == depth + 1
 Choices ==
     IF Pick = "random"
     THEN LET P == Prof(Level)
-             ok(c) == LegalCmd(P, heap, c) /\ Enabled(c)
+             ok(c) == LegalCmd(P, heap, c)
              c1 == RandomCmd(P, heap)
              c2 == RandomCmd(P, heap)
              c3 == RandomCmd(P, heap)
          IN IF ok(c1) THEN {c1} ELSE IF ok(c2) THEN {c2} ELSE IF ok(c3) THEN {c3}
             ELSE {[op |-> "SetByte", v |-> 1, off |-> 0, data |-> [k |-> "conc", bytes |-> <<9>>]]}
-    ELSE {c \in Cmds(Prof(Level), heap) : Enabled(c)}
+    ELSE Cmds(Prof(Level), heap)
 
 Next ==
     /\ Level <= Depth
